@@ -379,6 +379,7 @@ func c06Arc(c *run.Ctx, idx uint64) {
 	fail := func(sig string, extra map[string]interface{}) {
 		dd := desc()
 		dd["raster_calls"] = rec.RStrings(calls)
+		dd["path_before_the_arc"] = rec.Strings(clip(pre, 12))
 		for k, v := range extra {
 			dd[k] = v
 		}
@@ -407,6 +408,18 @@ func c06Arc(c *run.Ctx, idx uint64) {
 		}
 		return
 	}
+	// reference centre parameterisation in viewBox space from the actual pen
+	X1, Y1 := float64(penX)/sx+mx, float64(penY)/sy+my
+	X2, Y2 := epx/sx+mx, epy/sy+my
+	a := ref.ArcToCenter(X1, Y1, X2, Y2, float64(rx), float64(ry), 2*math.Pi*float64(rot), fa, fs)
+	if 2*math.Sqrt(a.Lambda) < 1e-7 {
+		// The chord is below 1e-7 of the radii (what precedes the arc may move the
+		// pen almost onto the end point): start and end are not distinct at the
+		// resolution of any angle computation in double precision, which is the
+		// coincident-end-points case the property excludes (DESIGN 6.13). Counted.
+		c.Count("end_points_coincide_at_angle_resolution_not_judged", 1)
+		return
+	}
 	if len(calls) == 0 {
 		fail("no-segments", nil)
 		return
@@ -419,10 +432,6 @@ func c06Arc(c *run.Ctx, idx uint64) {
 	}
 	c.Count(fmt.Sprintf("cubics_%d", len(calls)), 1)
 	last := calls[len(calls)-1]
-	// reference centre parameterisation in viewBox space from the actual pen
-	X1, Y1 := float64(penX)/sx+mx, float64(penY)/sy+my
-	X2, Y2 := epx/sx+mx, epy/sy+my
-	a := ref.ArcToCenter(X1, Y1, X2, Y2, float64(rx), float64(ry), 2*math.Pi*float64(rot), fa, fs)
 	mag := endMag + sx*(math.Abs(a.CX)+a.RX) + sy*(math.Abs(a.CY)+a.RY)
 	eerr := math.Hypot(float64(last.A[4])-epx, float64(last.A[5])-epy)
 	c.MaxF("worst_endpoint_error_rel", math.Min(eerr/mag, 1))
